@@ -27,6 +27,16 @@ CHECKS = {
             "Trusted: vlib/m_hex.py model and generator; patterns keep every un-split piece below 700 bytes. One "
             "known finding (chained patterns with a variable-length piece) is suppressed by class.",
             "DESIGN.md section 2, C02"),
+    "C03": ("exploration",
+            "reference-model oracle over recorded match lists and `matches` verdicts (runtime monitoring under ASan/UBSan/LSan)",
+            "Every generated (regular expression, buffer) pair runs in the real engine under sanitizers; reported "
+            "offsets/lengths and the verdict of `matches` are compared with a position-set regex matcher written from "
+            "the manual (no atoms, no fibers, no backtracking); a small-scope sweep runs short expressions over {a,b,.} "
+            "against ALL buffers up to length 6.",
+            "Trusted: vlib/m_re.py. Five known-finding classes (zero-length matches, nullable misses, counted-repeat "
+            "loops, chained lazy dot ranges, empty match at end for `matches`) are suppressed by predicate; fullword on "
+            "variable-length expressions is checked with a sound sandwich.",
+            "DESIGN.md section 2, C03"),
 }
 
 NOT_YET = "check not built yet in this round (planned in DESIGN.md section 2); nothing is claimed for it"
